@@ -577,7 +577,11 @@ def _iter_segments(
                                 slice_start,
                                 element.template_slice.stop + tfs_offset,
                             ),
-                            element.template_slice,
+                            slice(
+                                element.template_slice.start
+                                + consumed_element_length,
+                                element.template_slice.stop,
+                            ),
                             templated_file,
                         ),
                         subslice=slice(consumed_element_length, None),
@@ -615,22 +619,26 @@ def _iter_segments(
                             "Existing Consumed: %s",
                             consumed_element_length,
                         )
-                        if stashed_source_idx is not None:
-                            raise NotImplementedError(  # pragma: no cover
-                                "Found literal whitespace with stashed idx!"
-                            )
-                        incremental_length = (
-                            tfs.templated_slice.stop - element.template_slice.start
+                        # The part of this element which we've not yet yielded
+                        # starts here in the templated file.
+                        _part_start = (
+                            element.template_slice.start + consumed_element_length
                         )
+                        incremental_length = tfs.templated_slice.stop - _part_start
+                        # If we spilled over a templated slice on the way here,
+                        # the source position starts where that slice did.
+                        if stashed_source_idx is not None:
+                            slice_start = stashed_source_idx
+                            stashed_source_idx = None
+                        else:
+                            slice_start = _part_start + tfs_offset
                         yield element.to_segment(
                             pos_marker=PositionMarker(
                                 slice(
-                                    element.template_slice.start
-                                    + consumed_element_length
-                                    + tfs_offset,
+                                    slice_start,
                                     tfs.templated_slice.stop + tfs_offset,
                                 ),
-                                element.template_slice,
+                                slice(_part_start, tfs.templated_slice.stop),
                                 templated_file,
                             ),
                             # Subdivide the existing segment.
@@ -676,9 +684,10 @@ def _iter_segments(
                         if stashed_source_idx is not None:
                             slice_start = stashed_source_idx
                         else:
-                            slice_start = (
-                                tfs.source_slice.start + consumed_element_length
-                            )
+                            # NOTE: Any part of this element consumed so far came
+                            # from *previous* slices, so it must not offset the
+                            # position within this one.
+                            slice_start = tfs.source_slice.start
                         yield element.to_segment(
                             pos_marker=PositionMarker(
                                 slice(
@@ -687,7 +696,11 @@ def _iter_segments(
                                     # slice. We can't subdivide any better.
                                     tfs.source_slice.stop,
                                 ),
-                                element.template_slice,
+                                slice(
+                                    element.template_slice.start
+                                    + consumed_element_length,
+                                    element.template_slice.stop,
+                                ),
                                 templated_file,
                             ),
                             subslice=slice(consumed_element_length, None),
